@@ -56,6 +56,7 @@ public:
   std::map<std::string, int> fileIds;
   std::vector<std::string> files;
   std::map<const Stmt *, int> stmtIds;
+  std::map<const Decl *, int> varNodeIds;
   int nextStmt = 0;
 
   Emitter(ASTContext &C, OStream &J) : Ctx(C), SM(C.getSourceManager()), LO(C.getLangOpts()), J(J) {}
@@ -182,6 +183,9 @@ public:
   // ---------------------------------------------------------------- AST
   void emitVarDecl(const VarDecl *VD) {
     J.objectBegin();
+    int vid = nextStmt++;
+    varNodeIds[VD] = vid;
+    J.attribute("i", vid);
     J.attribute("k", "Var");
     J.attribute("d", declId(VD));
     J.attribute("n", VD->getNameAsString());
@@ -460,7 +464,16 @@ public:
       for (const CFGElement &El : *B) {
         if (Optional<CFGStmt> CS = El.getAs<CFGStmt>()) {
           auto it = stmtIds.find(CS->getStmt());
-          J.value(it == stmtIds.end() ? -1 : it->second);
+          int id = it == stmtIds.end() ? -1 : it->second;
+          if (id < 0) {
+            // clang splits `T a = .., b = ..;` into synthetic one-declarator DeclStmts: point at the Var node
+            if (const DeclStmt *DS = dyn_cast<DeclStmt>(CS->getStmt()))
+              if (DS->isSingleDecl()) {
+                auto vt = varNodeIds.find(DS->getSingleDecl());
+                if (vt != varNodeIds.end()) id = vt->second;
+              }
+          }
+          J.value(id);
         }
       }
       J.arrayEnd();
@@ -503,6 +516,7 @@ public:
   // ---------------------------------------------------------------- decls
   void emitFunction(const FunctionDecl *FD) {
     stmtIds.clear();
+    varNodeIds.clear();
     nextStmt = 0;
     J.objectBegin();
     J.attribute("d", declId(FD));
